@@ -235,6 +235,10 @@ def run(P: Program, R: Report, tier: str) -> None:
                                "after a paint stroke the mask can no longer be recovered for undo")
         if seen and ok_all:
             R.ok("R07.6", f, f.node, f"{c.name}: the caller's pixels reach the primitive that records them", via="dataflow")
+    # ---- R07.11 undo / redo replay the recorded strokes in timeline order (history shape, shared with C02)
+    from . import c02 as _c02
+
+    _c02.history_shape(P, R)
     # ---- R07.9 _apply does not recompute the pixels it was handed (undo must restore exactly what the stroke changed)
     from .c01 import apply_keeps_inverse_inputs
 
